@@ -98,9 +98,13 @@ fn gen_pr_graph(rng: &mut Rng, n: usize) -> (Graph, &'static str) {
         }
         9 => {
             // dense random with a few dangling nodes
-            for x in 0..n {
+            // (the dense block is limited to 24 nodes, the rest stays isolated: the exact
+            // rational solver of the model driver is cubic in the size of the dense block
+            // with numbers of thousands of bits)
+            let m = n.min(24);
+            for x in 0..m {
                 if rng.chance(1, 6) { continue; }
-                for y in 0..n { if rng.chance(1, 2) { g[x].push(y); } }
+                for y in 0..m { if rng.chance(1, 2) { g[x].push(y); } }
             }
             "dense"
         }
